@@ -96,6 +96,10 @@ type c16Case struct {
 	Hosts   int         `json:"hosts"`
 	Conns   int         `json:"conns"`
 	Actions []c16Action `json:"actions"`
+	// FailedUse > 0: before the actions start, that many clients (alternating protocol versions, so distinct backend
+	// sessions) issue USE for a keyspace that does not exist; the backend refuses, the client gets an error, and the
+	// proxy is left with sessions that never came up. Topology changes afterwards must be followed all the same.
+	FailedUse int `json:"failed_use,omitempty"`
 }
 
 const (
@@ -178,7 +182,7 @@ func (w *c16World) converged() (bool, string) {
 			if cn.IsRegistered() {
 				control++
 				controlOn = h
-			} else if cn.Started {
+			} else if cn.IsStarted() {
 				pooled[h]++
 			}
 		}
@@ -193,8 +197,15 @@ func (w *c16World) converged() (bool, string) {
 		return false, fmt.Sprintf("control connection on host %d which is not a live member", controlOn)
 	}
 	for _, h := range live {
-		if pooled[h] != w.c.Conns {
-			return false, fmt.Sprintf("host %d has %d pooled connections (want %d)", h, pooled[h], w.c.Conns)
+		// (fewer than configured = a lost connection that was not replaced; surplus connections - e.g. sockets of
+		// failed connection attempts of a session that never came up - are not something the property speaks about)
+		if pooled[h] < w.c.Conns || (w.c.FailedUse == 0 && pooled[h] != w.c.Conns) {
+			desc := ""
+			for _, cn := range w.e.Cluster.Host(h).Conns() {
+				a, b := cn.Info()
+				desc += fmt.Sprintf(" [%s %s reg=%v started=%v]", a, b, cn.IsRegistered(), cn.IsStarted())
+			}
+			return false, fmt.Sprintf("host %d has %d pooled connections (want %d):%s", h, pooled[h], w.c.Conns, desc)
 		}
 	}
 	got, f := w.probe(2*len(live) + 1)
@@ -257,6 +268,25 @@ func c16Check(c c16Case) *evid.Fail {
 	}
 	if f := w.awaitConvergence("start-up"); f != nil {
 		return f
+	}
+	for i := 0; i < c.FailedUse; i++ {
+		v := []primitive.ProtocolVersion{3, 4}[i%2]
+		cl, err := e.client(v, "")
+		if err != nil {
+			return evid.Failf("harness-client", "%v", err)
+		}
+		if err := cl.SendMsg(v, 1, &message.Query{Query: fmt.Sprintf("USE no_such_keyspace_%d", i), Options: &message.QueryOptions{Consistency: primitive.ConsistencyLevelOne}}, false); err != nil {
+			return evid.Failf("harness-send", "%v", err)
+		}
+		rp := cl.WaitStream(1, 0, 1, posWait)
+		if rp == nil {
+			return evid.Failf("use-unanswered", "USE of a keyspace that does not exist was not answered within %v", posWait)
+		}
+		if b, err := cl.Decode(rp); err == nil {
+			if _, isErr := b.Message.(message.Error); !isErr {
+				return evid.Failf("use-missing-accepted", "USE of a keyspace that does not exist was answered with %v", b.Message)
+			}
+		}
 	}
 	for ai, a := range c.Actions {
 		what := fmt.Sprintf("%s (action %d)", a.Op, ai)
@@ -514,6 +544,25 @@ func c16Gen(rt *rapid.T) c16Case {
 		}
 		c.Actions = append(c.Actions, a)
 	}
+	if rapid.IntRange(0, 3).Draw(rt, "failed_use") == 0 {
+		// sessions that never came up, followed by membership changes only (the fault actions measure connection
+		// counts and dial rates of the healthy sessions, which idle retries of a refused session would blur)
+		c.FailedUse = rapid.IntRange(1, 3).Draw(rt, "nfailed")
+		for i := range c.Actions {
+			switch c.Actions[i].Op {
+			case "add_node", "remove_node", "restart_node", "drop_control", "event_then_failover":
+			default:
+				c.Actions[i].Op = []string{"remove_node", "add_node", "restart_node"}[i%3]
+				if c.Actions[i].Op == "add_node" {
+					if added >= 3 {
+						c.Actions[i].Op = "remove_node"
+					} else {
+						added++
+					}
+				}
+			}
+		}
+	}
 	return c
 }
 
@@ -640,6 +689,9 @@ func TestC16(t *testing.T) {
 		membership, fault := false, false
 		for _, a := range c.Actions {
 			labels = append(labels, "op:"+a.Op)
+			if c.FailedUse > 0 {
+				labels = append(labels, "after-failed-use:"+a.Op)
+			}
 			switch a.Op {
 			case "add_node", "remove_node", "restart_node", "event_then_failover", "outage", "backoff":
 				membership = true
